@@ -516,6 +516,33 @@ fn def_method_impl(
                         }
                     };
 
+                    let unmock_input_eval_arm = attr.get_unmock_fn(index).map(
+                        |UnmockFn {
+                             path: unmock_path,
+                             params: unmock_params,
+                         }| {
+                            let unmock_expr = match unmock_params {
+                                None => quote! {
+                                    #unmock_path(#self_to_delegator, #fn_params) #opt_dot_await
+                                },
+                                Some(UnmockFnParams { params }) => {
+                                    // `self` has been moved into the surrogate at this point
+                                    let params = util::replace_self_tokens(
+                                        quote! { #params },
+                                        &quote! { #self_to_delegator },
+                                    );
+                                    quote! {
+                                        #unmock_path(#params) #opt_dot_await
+                                    }
+                                }
+                            };
+
+                            quote! {
+                                #prefix::private::Continuation::Unmock => #unmock_expr,
+                            }
+                        },
+                    );
+
                     let default_impl_input_eval_arm = if default_delegator_call.is_some() {
                         quote! {
                             #prefix::private::Continuation::CallDefaultImpl => {
@@ -538,6 +565,7 @@ fn def_method_impl(
                                 __answer_fn(__self, #fn_params)
                             }
                             #default_impl_input_eval_arm
+                            #unmock_input_eval_arm
                             cont => cont.report(__self)
                         }
                     }
